@@ -75,6 +75,7 @@ inductive EK
   | expectedNumberOrComma   -- "expected a number or a comma"
   | rangeOrder              -- "the start of a range must not be greater than its end"
   | numberTooLarge          -- "number too large"
+  | numberOverflow          -- "number cannot overflow u32"
 deriving DecidableEq, Repr
 
 def EK.slug : EK → String
@@ -88,6 +89,7 @@ def EK.slug : EK → String
   | .unexpectedOperator => "unexpected_operator"
   | .expectedNumberOrComma => "expected_a_number_or_a_comma" | .rangeOrder => "range_order"
   | .numberTooLarge => "number_too_large"
+  | .numberOverflow => "number_overflow"
 
 /-! ### character classes -/
 
